@@ -3,6 +3,18 @@ package sim
 // EngineFor returns the function that executes a plan for a property.
 func EngineFor(prop string) func(*Plan) *RunResult {
 	switch prop {
+	case "C07":
+		return func(plan *Plan) *RunResult {
+			r := RunFault(plan, Thorough)
+			r.Hash = resultHash(r)
+			return r
+		}
+	case "C03":
+		return func(plan *Plan) *RunResult {
+			r := RunCrash(plan, Thorough)
+			r.Hash = resultHash(r)
+			return r
+		}
 	}
 	return func(plan *Plan) *RunResult {
 		p := Profiles()[plan.Prop]
@@ -75,6 +87,9 @@ func nonTrivial(prop string, r *RunResult) bool {
 	}
 	return r.Stats.Steps > 3
 }
+
+// Thorough selects the deeper enumeration bounds (tier).
+var Thorough bool
 
 // CompensateGetLeak: see the known finding "get-ref-leak" (C15).  Set per
 // worker process from the canary's result.
